@@ -40,7 +40,8 @@ import (
 //	                          io.NopCloser(*bytes.Reader), newreq = what http.NewRequest/httptest.NewRequest make of
 //	                          a *bytes.Reader (http.NoBody when it is empty), wire = the request is written out and
 //	                          parsed back by http.ReadRequest (what a handler really gets; http.NoBody when the body
-//	                          is empty). The model has no carrier: binding sees the BYTES of the body only, a request
+//	                          is empty), chunk = a body of unknown length (ContentLength -1, Transfer-Encoding chunked).
+//	                          The model has no carrier: binding sees the BYTES of the body only, a request
 //	                          without a body is a request with an empty body. r.Body == nil is outside the domain
 //	                          (net/http never hands that to a handler; the unchanged JSON/XML branches panic on it).
 //	tbind <type> <api> ...    the same bind into one of several struct types (anonymous, function-local, named; with and
@@ -127,7 +128,7 @@ func mkReq(method, ctype, rawq, body string, hdr [][2]string) (*http.Request, *t
 	return r, tb
 }
 
-var bodyCarriers = []string{"rd", "nobody", "nop", "newreq", "wire"}
+var bodyCarriers = []string{"rd", "nobody", "nop", "newreq", "wire", "chunk"}
 
 // mkReqC: mkReq with r.Body delivered by the named carrier; ok = false when this request cannot travel that
 // way unchanged (a non-empty body as http.NoBody; a method / query / header the wire format does not preserve).
@@ -142,6 +143,11 @@ func mkReqC(carrier, method, ctype, rawq, body string, hdr [][2]string) (r *http
 		r.Body = http.NoBody
 	case "nop":
 		r.Body = io.NopCloser(bytes.NewReader([]byte(body)))
+	case "chunk":
+		// a body of unknown length (what a server hands over for "Transfer-Encoding: chunked"): ContentLength -1
+		r.Body = io.NopCloser(struct{ io.Reader }{strings.NewReader(body)})
+		r.ContentLength = -1
+		r.TransferEncoding = []string{"chunked"}
 	case "newreq":
 		nr, err := http.NewRequest("POST", "http://example.test/p", bytes.NewReader([]byte(body)))
 		if err != nil {
@@ -1090,7 +1096,7 @@ func (bindEngine) Corpus() []Case {
 		var ops []string
 		for _, ct := range []string{ue, "multipart/form-data; boundary=XB", "application/json", "application/json; charset=utf-8", "text/xml",
 			"application/xml", "text/plain", ""} {
-			for _, carrier := range []string{"nobody", "newreq", "wire", "nop"} {
+			for _, carrier := range []string{"nobody", "newreq", "wire", "nop", "chunk"} {
 				ops = append(ops, bindLineC(carrier, "auto", "std", m, ct, "v=A&q=Q", "", nil))
 			}
 			ops = append(ops, bindLineC("nobody", "ctxbind", "off", m, ct, "v=A&q=Q", "", nil), bindLineC("nobody", "pkgmust", "cnt", m, ct, "v=A", "", nil))
@@ -1474,7 +1480,7 @@ func (bindEngine) Gen(r *Rand, tier string) Case {
 			if body == "" && r.Chance(2, 3) {
 				carrier = r.Pick(bodyCarriers)
 			} else if r.Chance(1, 4) {
-				carrier = r.Pick([]string{"nop", "newreq", "wire"})
+				carrier = r.Pick([]string{"nop", "newreq", "wire", "chunk", "chunk"})
 			}
 			ops = append(ops, bindLineC(carrier, api, genValidator(r), m, ct, genQueryString(r), body, hdr))
 		}
